@@ -179,6 +179,13 @@ func checkC06(c *Ctx) {
 	checkNOL(c, f)
 	// (i)
 	checkContinuationColumns(c, f)
+	// (k) what a blank is: spaces, tabs, `//` to the end of the line, `/*` to the FIRST `*/` — so the text of a comment
+	// is immaterial (it cannot open, nest or extend anything)
+	r.Rule("C06.k", "a SPACE token is a run of spaces, tabs, line comments (to the line end) and block comments (to the first */): closed forms of the hand-written scanner and its three helpers", 4)
+	c.expectNF(f, "C06.k", "scanSpaceToken", []string{`seq[assign($0 := 0); for((); (((isCharAt(p0, (p1 + $0), 32) || isStringAt(p0, (p1 + $0), "/*")) || isStringAt(p0, (p1 + $0), "//")) || isCharAt(p0, (p1 + $0), 9)); ()){seq[for((); isCharAt(p0, (p1 + $0), 32); assign($0 ++ 1)){seq[]}; for((); isCharAt(p0, (p1 + $0), 9); assign($0 ++ 1)){seq[]}] if(isStringAt(p0, (p1 + $0), "/*"), seq[assign($1 := searchForward(p0, ((p1 + $0) + 2), "*/"))] if(($1 == -1), seq[panic("No comment end found.")], seq[assign($0 = (($1 - p1) + 2))] if(isStringAt(p0, (p1 + $0), "//"), seq[for((); (((p1 + $0) < len(p0)) && not(isCharAt(p0, (p1 + $0), 10))); assign($0 ++ 1)){seq[]}], seq[])), if(isStringAt(p0, (p1 + $0), "//"), seq[for((); (((p1 + $0) < len(p0)) && not(isCharAt(p0, (p1 + $0), 10))); assign($0 ++ 1)){seq[]}], seq[]))}; assign(newToken(var:New_TokenType_SPACE, p1, 0).len = $0)] newToken(var:New_TokenType_SPACE, p1, 0)`}, "spaces, tabs, // to the line end, /* to the first */ found by searchForward; an unterminated block comment is a diagnostic")
+	c.expectNF(f, "C06.k", "searchForward", []string{`seq[assign($0 := p1); for((); ($0 < len(p0)); assign($0 ++ 1)){if(isStringAt(p0, $0, p2), return($0), seq[])}] -1`}, "the first position at or after start where the string occurs, -1 if none")
+	c.expectNF(f, "C06.k", "isStringAt", []string{`if(((p1 + len(p2)) > len(p0)), false, seq[range($0 _ : p2){if((p2[$0] != p0[(p1 + $0)]), return(false), seq[])}] true)`}, "the string occurs at the position (false past the end)")
+	c.expectNF(f, "C06.k", "isCharAt", []string{`if((p1 >= len(p0)), false, (p0[p1] == p2))`}, "the byte at the position (false past the end)")
 	r.Rule("C06.j", "after `=`, `with` and the `->` of a lambda or match rule the parser skips line ends before parsing what follows (what follows may start on the next line); the arrow of a type is the one exception", 10)
 	checkSkipAfterContinuationTokens(c, f, "C06.j")
 	checkRelevantReviewedForms(c, f, "C06.z", "a layout primitive (line-end skipping, columns, offside stack, adjacency)",
